@@ -344,8 +344,8 @@ Proof. vm_compute. repeat split. Qed.
    the real parser returns WITH the optimizer (B) and checks ast_eqb (optimize c02_flags ... A) B = true
    (Run/C02Run.v c02_tie_class = 0).  ast_eqb decides Leibniz equality, so on every such program the
    soundness theorems hold for B itself - the real optimizer's output, not only the model's. *)
-Theorem ast_eqb_decides_equality : forall a b, ast_eqb a b = true -> a = b.
-Proof. exact ast_eqb_sound. Qed.
+Theorem ast_eqb_decides_equality : forall a b, ast_eqb a b = true <-> a = b.
+Proof. exact ast_eqb_iff. Qed.
 
 Theorem C02_tied_ast_sound : forall fl known fuel,
   cfg_ok fl = true ->
